@@ -79,6 +79,8 @@ class Evaluator:
             a = atom_of(t)
             if a is not None and a in self.assign:
                 return self.assign[a]
+            if ("discr", t[1]) in self.assign:
+                return self.assign[("discr", t[1])]
             raise Unknown(show(t, maxdepth=3))
         if h == "binop":
             op = t[1]
@@ -214,7 +216,15 @@ def simulate(body, tb, ev, start=0, max_steps=400, discr_choice=None):
                 if d[0] == "discr" and discr_choice is not None and ("discr", d[1]) in discr_choice:
                     v = discr_choice[("discr", d[1])]
                 else:
-                    v = ev.ev(d)
+                    try:
+                        v = ev.ev(d)
+                    except Unknown:
+                        # a flag local assigned on several branches (`let r = match c { A => true, B => x >= y }; if r {…}`): on
+                        # this path it holds what the last assignment on the path gave it
+                        pl = t["discr"].get("place") if isinstance(t["discr"], dict) else None
+                        if d[0] != "phi" or not pl or pl.get("p"):
+                            raise
+                        v = ev.ev(strip(_path_flag_value(body, tb, res.blocks, pl["l"])))
             except Unknown as e:
                 res.end, res.end_bb = "unknown:%s" % e, bb
                 return res
@@ -227,6 +237,24 @@ def simulate(body, tb, ev, start=0, max_steps=400, discr_choice=None):
         else:
             res.end, res.end_bb = "diverge" if k in ("unreachable", "resume", "terminate") else "unknown:%s" % k, bb
             return res
+
+
+def _path_flag_value(body, tb, path_blocks, l, depth=0):
+    """value of a whole local at the end of a block path, plain copies (`_8 = copy _4`) followed back along the same path"""
+    for pos in range(len(path_blocks) - 1, -1, -1):
+        blk = body.blocks[path_blocks[pos]]
+        for st in reversed(blk["stmts"]):
+            if st["k"] == "assign" and st["place"]["l"] == l and not st["place"]["p"]:
+                rv = st["rv"]
+                if rv["k"] == "use" and rv["op"].get("k") in ("copy", "move") and not rv["op"]["place"]["p"] and depth < 6:
+                    # (the source is read where the copy stands: anything later on the path is not seen by it)
+                    return _path_flag_value(body, tb, path_blocks[:pos + 1], rv["op"]["place"]["l"], depth + 1) \
+                        if not any(s2["k"] == "assign" and s2["place"]["l"] == rv["op"]["place"]["l"] for s2 in blk["stmts"]) else path_value(body, tb, path_blocks[:pos + 1], l)
+                return path_value(body, tb, path_blocks[:pos + 1], l)
+        t = blk["term"]
+        if t["k"] == "call" and t["dest"]["l"] == l and not t["dest"]["p"] and pos < len(path_blocks) - 1:
+            return path_value(body, tb, path_blocks[:pos + 2], l)
+    return path_value(body, tb, path_blocks, l)
 
 
 def path_value(body, tb, path_blocks, root):
